@@ -4,14 +4,17 @@ import json
 from check import Result
 
 PROP = "C14"
-TARGETS = ["NetqasmVerif.Props.C14"]
+TARGETS = ["NetqasmVerif.Props.C14", "NetqasmVerif.Props.EprRegsObligations"]
 M = "NetqasmVerif.Props.C14"
 THEOREMS = [(M, "NQ.C14." + n) for n in [
     "balanced", "flush_balanced", "newReg_takes_one", "sequence_compiles", "compiles_of_need",
     "depth_bound", "long_run_compiles", "fresh_has_16", "temps_disjoint", "temps_disjoint_code", "temps_disjoint_pick",
     "f17_if_ez_40", "f17_loop_until_20", "need_tight_16",
-    "explicit_register_protected", "explicit_register_in_use_rejected"]]
-TRANSLATORS = []
+    "explicit_register_protected", "explicit_register_in_use_rejected",
+    "balanced_epr", "epr_leak_witness", "epr_forms_completed", "epr_sequence_compiles"]] + [
+    ("NetqasmVerif.Props.EprRegsObligations", "NQ.EprRegs." + n) for n in ["eprForms_balanced", "eprForms_peak",
+                                                                             "eprForms_nonempty"]]
+TRANSLATORS = ["epr_regs"]
 LEVEL_TEXT = (
     "Lean theorems about an executable model of the SDK builder + memory manager (Model/Sdk.lean, `emit` mirrors "
     "builder.py/memmgr.py/futures.py method by method): `balanced` — for EVERY completed host operation (if/loop/"
@@ -42,7 +45,10 @@ ASSUMPTIONS = [
     "its register (theorem newReg_takes_one: exactly one)",
     "an explicit loop register (loop / loop_body) is an R register R0..R15 given as str or Register; other banks "
     "(C, and Q0 / M registers, which the SDK itself uses for qubit addresses and outcomes) are outside the model",
-    "EPR create/recv operations are covered by the models of C09/C10, not by this one",
+    "EPR operations are modelled by their register discipline only: the sequence of take (lowest free register) / "
+    "release events that translate/epr_regs.py records from the real builder for each of the 360 API forms "
+    "(create/recv x keep plain/post routine/sequential/with_info/rsp/measure/context x expect_phi_plus x "
+    "min_fidelity_all_at_end x number 1..3 x generic/NV/NV-compiler); the commands they emit are C09/C10's subject",
 ]
 
 
@@ -194,7 +200,7 @@ def run(ctx):
     #    Executor against the direct interpreter
     nD = 1500 if ctx.thorough else 250
     for _ in range(nD):
-        op = H.completed_op(rng, depth=rng.choice([2, 3, 4]))
+        op = H.completed_op(rng, depth=rng.choice([2, 3, 4]), h0=0)
         prog = base + [op, {"k": "flush"}]
         outs = [rng.randrange(2) for _ in range(64)]
         res.evaluations += 1
@@ -227,6 +233,83 @@ def run(ctx):
         if r.err is None or r.err[1] != "regState":
             res.failures.append({"what": "an explicit loop register that is in use was not rejected by the SDK",
                                  "kf": None, "input": {"program": prog, "real": r.err}})
+    # -- stream F: EPR operations. (1) model-free: every API form, from several register states, leaves the
+    #    active registers as they were, and repeated with a flush after each it keeps compiling;
+    #    (2) tie of the replay model: active registers after every step of mixed sequences, model vs real SDK
+    from harness import sdk_epr as E
+
+    def epr_leak(form, prefix, reps, hw):
+        r = H.RealRun(execute=False, hw=hw)
+        for t in prefix:
+            r.stmt(t)
+        before = sorted(x.index for x in r.mm._active_registers)
+        for n in range(1, reps + 1):
+            try:
+                r.stmt({"k": "epr", "form": form})
+                r.flush()
+            except Exception as e:
+                return {"what": "the real SDK raised %s compiling the %d-th %s" % (H.err_kind(r.first_exc or e), n,
+                                                                                  E.form_name(form)),
+                        "form": form, "repetition": n, "prefix": prefix}
+            after = sorted(x.index for x in r.mm._active_registers)
+            if after != before:
+                # how long until it bites?
+                fail_at = None
+                for k in range(n + 1, 40):
+                    try:
+                        r.stmt({"k": "epr", "form": form})
+                        r.flush()
+                    except Exception as e:
+                        fail_at = [k, H.err_kind(r.first_exc or e) + ": " + str(e)[:80]]
+                        break
+                return {"what": "a completed EPR operation leaked/released registers: " + E.form_name(form),
+                        "form": form, "active_before": before, "active_after": after, "prefix": prefix,
+                        "compiling_fails_at_repetition": fail_at}
+        return None
+
+    forms = E.all_forms()
+    prefixes = [[], [{"k": "reg", "v": 1}, {"k": "reg", "v": 2}]]
+    for f in forms:
+        res.evaluations += 1
+        res.count("epr-api:" + f["api"])
+        fl = epr_leak(f, prefixes[rng.randrange(2)], 2, f["hw"])
+        if fl:
+            res.failures.append({"what": fl["what"], "kf": None, "input": fl})
+    sample = forms if ctx.thorough else rng.sample(forms, 30)
+    for f in sample:
+        res.evaluations += 1
+        fl = epr_leak(f, [], 20, f["hw"])
+        if fl:
+            res.failures.append({"what": fl["what"], "kf": None, "input": fl})
+
+    def correspond_active(prog, stream, hw):
+        res.evaluations += 1
+        m = drv.call({"op": "sdk.run", "p": prog})
+        r = H.RealRun(execute=False, hw=hw).run(prog)
+        res.count("stream:" + stream)
+        ma = [x["active"] for x in m["snaps"]][:len(r.snaps)]
+        ra = [x["active"] for x in r.snaps]
+        if (r.err or None) != (m.get("err") or None) or ma != ra:
+            k = next((i for i, (a, b) in enumerate(zip(ma, ra)) if a != b), -1)
+            res.disagreements.append({"stream": "sdk." + stream, "input": prog[:k + 2] if k >= 0 else prog,
+                                      "model": {"err": m.get("err"), "active": ma[k] if k >= 0 else None},
+                                      "code": {"err": r.err, "active": ra[k] if k >= 0 else None}})
+        if r.err is not None and r.err[1] == "noRegister":
+            res.failures.append({"what": "the real SDK ran out of registers in a sequence of completed operations "
+                                         "(with EPR operations) at step %d" % r.err[0], "kf": None,
+                                 "input": {"program_tail": prog[max(0, r.err[0] - 3):r.err[0] + 1]}})
+
+    for hw, n_ops, k in ([("generic", 200, 3), ("generic", 120, 40)] if not ctx.thorough else
+                         [("generic", 400, 1), ("generic", 400, 7), ("generic", 300, 50)] * 2):
+        correspond_active(H.long_sequence(rng, n_ops, k, depth=2, epr_hw=hw), "mixed-with-epr", hw)
+    for hw in ("nv", "nvc"):
+        prog = []
+        for i in range(150 if ctx.thorough else 60):
+            prog.append(H.epr_stmt(rng, hw))
+            if i % 4 == 3:
+                prog.append({"k": "flush"})
+        prog.append({"k": "flush"})
+        correspond_active(prog, "epr-only-" + hw, hw)
     if len(res.samples) < 4:
         res.samples.append({"long_sequence_head": H.long_sequence(rng, 3, 2)})
     return res
